@@ -340,6 +340,11 @@ class Heap:
                 ca, cb = oa._data.get("cov"), ob._data.get("cov")
                 if ca is not None and cb is not None and (ca is cb or np.shares_memory(np.asarray(ca), np.asarray(cb))):
                     ctx.violate("no-aliasing", {"kind": "shared_covariance"}, f"{where}: objects {a} and {b} share their covariance")
+                pa, pb = oa._data.get("propagator"), ob._data.get("propagator")
+                if pa is not None and pa is pb and not isinstance(pa, (str, type)) and self.related(a, b):
+                    # the propagator holds the orbit it is bound to: an orbit and its copy sharing one propagator object share mutable data
+                    # (iterating both at the same time makes one follow the other)
+                    ctx.violate("no-aliasing", {"kind": "shared_propagator"}, f"{where}: objects {a} and {b} (one is a copy of the other) share one propagator object {type(pa).__name__}")
                 ma, mb = oa._data.get("maneuvers"), ob._data.get("maneuvers")
                 if isinstance(ma, list) and ma is mb:
                     ctx.violate("no-aliasing", {"kind": "shared_maneuver_list"}, f"{where}: objects {a} and {b} share one maneuver list object")
